@@ -1,24 +1,21 @@
 #!/bin/bash
-# usage: seedmatrix.sh <Cnn> <k> [props...] -- run checks against a scratch worktree with the seeded change applied.
-# Without a property list: the seed's own property, every cheap property, and the properties listed in
-# seeded/<id>/meta.json detected_by (if any).
-id=$1; k=$2; shift 2
-src=/verif/seeded/$id-m$k
-patch=$src/patch.diff
-wt=/tmp/mx/${id}_$k; out=/tmp/mxv/${id}_$k
+# usage: seedmatrix.sh <seed-id> [props...]
+#   Runs checks against a scratch worktree of /repo HEAD with seeded/<seed-id>/patch.diff applied
+#   (never against /repo itself) and removes the worktree. Without a property list all 20 checks run.
+#   Output: /tmp/mxv/<seed-id>/<Cnn>.log ; one summary line on stdout.
+sid=$1; shift
+patch=/verif/seeded/$sid/patch.diff
+wt=/tmp/mx/$sid; out=/tmp/mxv/$sid
 rm -rf $wt $out; mkdir -p /tmp/mx $out
 git -C /repo worktree add -q --detach $wt HEAD || exit 1
-( cd $wt && (git apply $patch 2>/dev/null || git apply --3way $patch >/dev/null 2>&1) ) || { echo "$id m$k PATCH-FAIL"; git -C /repo worktree remove --force $wt; exit 0; }
+( cd $wt && (git apply $patch 2>/dev/null || git apply --3way $patch >/dev/null 2>&1) ) || { echo "$sid PATCH-FAIL"; git -C /repo worktree remove --force $wt; exit 0; }
 cp /verif/KNOWN_FINDINGS.txt $out/
 props="$@"
-if [ -z "$props" ]; then
-  props="$id C04 C05 C08 C11 C12 C13 C14 C15 C16 C19 C20 $(cat /tmp/seed_extra/${id}_$k 2>/dev/null)"
-  props=$(echo $props | tr ' ' '\n' | sort -u | tr '\n' ' ')
-fi
+[ -z "$props" ] && props="C01 C02 C03 C04 C05 C06 C07 C08 C09 C10 C11 C12 C13 C14 C15 C16 C17 C18 C19 C20"
 res=""
 for p in $props; do
   /verif/bin/ojgcheck -repo $wt -prop $p -verif $out > $out/$p.log 2>&1; code=$?
   if [ $code -ne 0 ]; then res="$res $p=$code"; fi
 done
-echo "$id m$k :$res"
+echo "$sid :$res"
 git -C /repo worktree remove --force $wt
